@@ -12,7 +12,7 @@ Trace == ndJsonDeserialize("trace.ndjson")
 
 TInit ==
   /\ Init0
-  /\ cfg = [router |-> "P"]
+  /\ cfg = [router |-> "P", dyn |-> FALSE]
   /\ l = 1
 
 TStep ==
